@@ -324,7 +324,7 @@ func (w *Worker) RunParamSkeleton(sk *Skeleton, property string, nonFinite bool)
 		case smt.Unsat:
 			res.VerdictUnsat++
 		case smt.Unknown:
-			if m.S.CheckSecondOpinion(120, "z3-new", "-smt2") == smt.Unsat {
+			if secondLookUnsat(m) {
 				res.VerdictUnsat++
 				res.SecondOpinion++
 				break
